@@ -615,12 +615,36 @@ func genFuncs() string {
 		if reqLoop == nil {
 			fail("%s: request hop-by-hop filter loop not found", rel)
 		}
+		// every top-level statement of ServeHTTP that touches r.Header (besides the agent-call test at the top) must be
+		// the filter loop or, before it, the loop that removes the fields nominated in Connection (hand-modelled:
+		// Hdr.dropConnNamed; its text is checked)
+		nomText := "for _, options := range r.Header[\"Connection\"] {\n\tfor _, option := range strings.Split(options, \",\") {\n\t\tr.Header.Del(strings.TrimSpace(option))\n\t}\n}"
+		hasNom := false
+		for _, st := range sh.Body.List {
+			txt := src(st)
+			if !strings.Contains(txt, "r.Header") || st == reqLoop {
+				continue
+			}
+			if is, ok := st.(*ast.IfStmt); ok && is.Init != nil && strings.Contains(src(is.Init), "r.Header.Get(utils.HeaderBackendID)") {
+				continue
+			}
+			if txt == nomText && st.Pos() < reqLoop.Pos() && !hasNom {
+				hasNom = true
+				continue
+			}
+			fail("%s: ServeHTTP edits the client request header in a way the extractor does not know:\n%s", rel, txt)
+		}
 		body := t.stmt(reqLoop, "  ")
-		body = append([]string{"  let mut rh := rh0"}, body...)
+		pre := []string{"  let mut rh := rh0"}
+		if hasNom {
+			pre = append(pre, "  rh := Hdr.dropConnNamed rh")
+		}
+		pre = append(pre, "  let rhSnap := rh")
+		body = append(pre, body...)
 		body = append(body, "  return rh")
-		// the loop ranges over the map being edited: iterate over the initial snapshot
+		// the loop ranges over the map being edited: iterate over a snapshot
 		for i := range body {
-			body[i] = strings.Replace(body[i], " in rh do", " in rh0 do", 1)
+			body[i] = strings.Replace(body[i], " in rh do", " in rhSnap do", 1)
 		}
 		emitDef(&sb, "server_filterRequestHeader (rh0 : Hdr) : Hdr", body, rel+" ServeHTTP: hop-by-hop filter on the client request")
 
